@@ -1,16 +1,18 @@
 #!/usr/bin/env python3
 """validate (tools/validate_seed.sh) and import the round-5 sub-agent deliveries under /tmp/seed5/out/<Uxx>/<A|B> into /verif/seeded/<Uxx>-<A|B>"""
 import json, os, re, shutil, subprocess, sys
+BASE = os.environ.get('SEEDBASE', '/tmp/seed5')
+ROUND = int(os.environ.get('SEEDROUND', '5'))
 PROP = {}
-for l in open('/tmp/seed5/agents.txt'):
+for l in open(BASE + '/agents.txt'):
     a, p = l.split()
     PROP[a] = p
 for aid in sys.argv[1:]:
     for v in ('A', 'B'):
-        out = f'/tmp/seed5/out/{aid}/{v}'
+        out = f'{BASE}/out/{aid}/{v}'
         if not os.path.exists(out + '/patch.diff') or not os.path.exists(out + '/demo.rs'):
             continue
-        subprocess.run(['bash', '/verif/tools/validate_seed.sh', aid, v, '/tmp/seed5'])
+        subprocess.run(['bash', '/verif/tools/validate_seed.sh', aid, v, BASE])
         res = dict(l.strip().split('=', 1) for l in open(out + '/validation.txt') if '=' in l)
         ok = res.get('demo_without_patch') == 'pass' and res.get('demo_with_patch', '').startswith('fail') and res.get('suite_with_patch') == 'pass'
         print(aid, v, res, 'OK' if ok else 'REJECTED', flush=True)
@@ -24,11 +26,11 @@ for aid in sys.argv[1:]:
                 shutil.copy(f'{out}/{f}', f'{dst}/{f}')
         files = re.findall(r'^\+\+\+ b/(\S+)', open(out + '/patch.diff').read(), re.M)
         notes = open(out + '/notes.md').read() if os.path.exists(out + '/notes.md') else ''
-        meta = {"id": sid, "property": PROP[aid], "round": 5,
-                "source": "independent sub-agent given only the property record, a focus area (depth / wide shapes / later rounds), the list of changes already known for that property, and a scratch worktree",
+        meta = {"id": sid, "property": PROP[aid], "round": ROUND,
+                "source": "independent sub-agent given only the property record, a focus area (round 5: depth / wide shapes / later rounds; round 6: environment dimensions a harness tends to forget), the list of changes already known for that property, and a scratch worktree",
                 "files_changed": files, "needs_short": "", "needs_to_manifest": "see notes.md",
                 "confirmed_by_me": {"demo_without_patch": res.get('demo_without_patch'), "demo_with_patch": res.get('demo_with_patch'), "existing_suite_with_patch": res.get('suite_with_patch'),
                                     "tests_ok_with_patch": int(res.get('suite_ok_count', 0)),
                                     "commands": ["cp demo.rs tests/seed_demo.rs && cargo test --offline --test seed_demo   (clean tree: pass)", "git apply patch.diff && cargo test --offline --test seed_demo   (patched: fail)", "rm tests/seed_demo.rs && cargo test --offline --workspace --no-fail-fast   (patched: all pass)"],
-                                    "where": f"scratch worktree /tmp/seed5/{aid} (removed afterwards)"}}
+                                    "where": f"scratch worktree {BASE}/{aid} (removed afterwards)"}}
         json.dump(meta, open(dst + '/meta.json', 'w'), indent=1)
